@@ -25,6 +25,7 @@ import (
 	abci "github.com/gnolang/gno/tm2/pkg/bft/abci/types"
 	dbm "github.com/gnolang/gno/tm2/pkg/db"
 	_ "github.com/gnolang/gno/tm2/pkg/db/pebbledb"
+	"github.com/gnolang/gno/tm2/pkg/sdk"
 	"github.com/gnolang/gno/tm2/pkg/std"
 
 	"verifharness/internal/chainsim"
@@ -72,14 +73,14 @@ func Tick(cur realm, h int) int {
 	return F
 }
 
-func Pair(a, b string) string {
+func Pair(a, b, z string) string {
 	bk := banker.NewReadonlyBanker()
 	last := 0
 	if len(List) > 0 {
 		last = List[len(List)-1]
 	}
 	return strconv.Itoa(H) + "," + strconv.Itoa(F) + "," + strconv.Itoa(last) + "," + strconv.Itoa(M["h"]) + "," + strconv.Itoa(M["g"]) + "," +
-		strconv.Itoa(int(bk.GetCoin(address(a), denom))) + "," + strconv.Itoa(int(bk.GetCoin(address(b), denom)))
+		strconv.Itoa(int(bk.GetCoin(address(a), denom))) + "," + strconv.Itoa(int(bk.GetCoin(address(b), denom))) + "," + strconv.Itoa(int(bk.GetCoin(address(z), denom)))
 }
 
 // Heavy burns query gas while reading state at both ends.
@@ -106,7 +107,9 @@ func buildBlocks(c *vf.Ctx, rng *rand.Rand, n int) [][]hist.TxSpec {
 	h := hist.GenP(rng, uint64(c.Seed), n, 3, hist.Profile{})
 	for i := range h.Blocks {
 		height := i + 3 // genesis block 1, setup block 2
-		tick := hist.TxSpec{Signer: "dave", Gas: 60_000_000, Fee: 1_000_000, Label: "tick", Msgs: []hist.MsgSpec{{Kind: "call", Pkg: probePath, Func: "Tick", Args: []string{strconv.Itoa(height)}}}}
+		tick := hist.TxSpec{Signer: "dave", Gas: 60_000_000, Fee: 1_000_000, Label: "tick", Msgs: []hist.MsgSpec{{Kind: "call", Pkg: probePath, Func: "Tick", Args: []string{strconv.Itoa(height)}},
+			// the same tx moves one coin in the (versioned) bank store: zed's balance counts the ticks
+			{Kind: "send", To: "zed", Amount: 1, Denom: hist.PeerDenom}}}
 		from, to := "alice", "bob"
 		if i%2 == 1 {
 			from, to = "bob", "alice"
@@ -160,7 +163,10 @@ func newRunner(c *vf.Ctx, backend, tag string) *runner {
 	ch.RunBlock()
 	// setup block: mint the constant-sum coin to alice
 	a := ch.Acc("alice")
-	tr := ch.OneTx([]std.Msg{chainsim.MsgCall(a, hist.PeerPath, "Mint", a.Addr.String(), "tok", strconv.Itoa(tokTotal))}, chainsim.Fee(60_000_000, 1_000_000), a)
+	tr := ch.OneTx([]std.Msg{
+		chainsim.MsgCall(a, hist.PeerPath, "Mint", a.Addr.String(), "tok", strconv.Itoa(tokTotal)),
+		chainsim.MsgCall(a, hist.PeerPath, "Mint", ch.Acc("dave").Addr.String(), "tok", "5000"),
+	}, chainsim.Fee(120_000_000, 1_000_000), a)
 	if !tr.OK {
 		panic("mint failed: " + tr.ErrString)
 	}
@@ -203,6 +209,7 @@ func run(c *vf.Ctx) {
 		// noisy run
 		rn := newRunner(c, backend, fmt.Sprintf("noisy-%d", bi))
 		alice, bob := rn.ch.Acc("alice").Addr.String(), rn.ch.Acc("bob").Addr.String()
+		zed := rn.ch.Acc("zed").Addr.String()
 		var queryMtx sync.Mutex // the query connection's own mutex
 		var wg sync.WaitGroup
 		stop := atomic.Bool{}
@@ -225,7 +232,7 @@ func run(c *vf.Ctx) {
 					kind := ""
 					switch r.IntN(9) {
 					case 0, 1, 2:
-						kind, req = "pair", abci.RequestQuery{Path: "vm/qeval", Data: []byte(probePath + ".Pair(\"" + alice + "\",\"" + bob + "\")")}
+						kind, req = "pair", abci.RequestQuery{Path: "vm/qeval", Data: []byte(probePath + ".Pair(\"" + alice + "\",\"" + bob + "\",\"" + zed + "\")")}
 					case 3:
 						kind, req = "heavy", abci.RequestQuery{Path: "vm/qeval", Data: []byte(probePath + ".Heavy(" + strconv.Itoa(1000+r.IntN(60000)) + ")")}
 					case 4:
@@ -268,6 +275,66 @@ func run(c *vf.Ctx) {
 			c.Violation("block-results-differ-under-queries:"+backend, map[string]any{"backend": backend, "blocks": len(blocks)}, "backend %s: app hashes / tx results with concurrent queries differ from the quiet run: %s", backend, firstDiff(refTrace, noisyTrace))
 		}
 		c.Count("blocks_compared", len(blocks))
+		// ---- injected schedule: a whole block commits between the moment a query has chosen
+		// its height and the moment it pins the committed state it reads (hook in tm2/pkg/sdk)
+		{
+			gr := newRunner(c, backend, fmt.Sprintf("gap-%d", bi))
+			ga, gb, gz := gr.ch.Acc("alice").Addr.String(), gr.ch.Acc("bob").Addr.String(), gr.ch.Acc("zed").Addr.String()
+			next := 0
+			for next < len(blocks) && next < 3 {
+				gr.play(blocks[next : next+1])
+				next++
+			}
+			for next < len(blocks) && next < c.N(15, 60) {
+				fired := false
+				hook := func() {
+					if fired {
+						return
+					}
+					fired = true
+					gr.play(blocks[next : next+1])
+					next++
+				}
+				sdk.VerifQueryGap.Store(&hook)
+				lo := gr.committed.Load()
+				var resp abci.ResponseQuery
+				req := abci.RequestQuery{Path: "vm/qeval", Data: []byte(probePath + ".Pair(\"" + ga + "\",\"" + gb + "\",\"" + gz + "\")")}
+				pv := vf.Try(func() { resp = gr.ch.App.Query(req) })
+				sdk.VerifQueryGap.Store(nil)
+				hi := gr.commitStart.Load()
+				c.Case(fmt.Sprintf("%s/gap/%d", backend, next), true)
+				w := map[string]any{"backend": backend, "kind": "pair", "injected": "one block committed between height choice and state pinning", "committed_before_request": lo, "commit_started_before_response": hi, "data": clip(string(resp.Data))}
+				if !fired {
+					c.Inconclusive("query-gap hook not reached (build without the verif tag?)")
+					break
+				}
+				c.Count("gap_queries", 1)
+				if pv != nil || resp.Error != nil {
+					c.Violation("query-error-under-load:pair-gap", w, "backend %s: pair query failed when a block committed inside it: %v %v", backend, pv, resp.Error)
+					continue
+				}
+				checkPair(c, backend, obs{kind: "pair", lo: lo, hi: hi, overlap: true, resp: resp}, w, "")
+			}
+			// ---- explicit past heights (no concurrency at all): the answer must be the state of that height
+			for back := int64(1); back <= 3; back++ {
+				hq := gr.committed.Load() - back
+				if hq < 4 {
+					break
+				}
+				var resp abci.ResponseQuery
+				req := abci.RequestQuery{Path: "vm/qeval", Height: hq, Data: []byte(probePath + ".Pair(\"" + ga + "\",\"" + gb + "\",\"" + gz + "\")")}
+				pv := vf.Try(func() { resp = gr.ch.App.Query(req) })
+				c.Case(fmt.Sprintf("%s/past-height/%d", backend, back), true)
+				w := map[string]any{"backend": backend, "kind": "pair", "requested_height": hq, "latest": gr.committed.Load(), "data": clip(string(resp.Data))}
+				if pv != nil || resp.Error != nil {
+					c.Count("past_height_query_refused", 1) // pruned or unsupported: an error is a single-height answer
+					continue
+				}
+				c.Count("past_height_queries_answered", 1)
+				checkPair(c, backend, obs{kind: "pair", lo: hq, hi: hq, overlap: false, resp: resp}, w, ":explicit-past-height")
+			}
+			gr.ch.Close()
+		}
 		// ---- single-version consistency of answers
 		for i, o := range all {
 			c.Case(fmt.Sprintf("%s/%s/%d", backend, o.kind, i), o.overlap)
@@ -285,7 +352,7 @@ func run(c *vf.Ctx) {
 			}
 			switch o.kind {
 			case "pair":
-				checkPair(c, backend, o, w)
+				checkPair(c, backend, o, w, "")
 			case "heavy":
 				f := ints(string(o.resp.Data))
 				if len(f) >= 2 && f[1] != 7*f[0]+3 && !(f[0] == 0 && f[1] == 0) {
@@ -301,29 +368,34 @@ func run(c *vf.Ctx) {
 	c.RequireCounter("pair_answers_checked", 20)
 }
 
-func checkPair(c *vf.Ctx, backend string, o obs, w map[string]any) {
+func checkPair(c *vf.Ctx, backend string, o obs, w map[string]any, variant string) {
 	f := ints(string(o.resp.Data))
-	if len(f) != 7 {
-		c.Violation("pair-unparseable", w, "cannot parse probe answer %q", clip(string(o.resp.Data)))
+	if len(f) != 8 {
+		c.Violation("pair-unparseable"+variant, w, "cannot parse probe answer %q", clip(string(o.resp.Data)))
 		return
 	}
 	c.Count("pair_answers_checked", 1)
 	h := f[0]
 	if h == 0 { // before the first Tick
 		if f[1] != 0 || f[2] != 0 || f[3] != 0 || f[4] != 0 {
-			c.Violation("query-mixes-versions:pair", w, "backend %s: probe answer %v mixes heights", backend, f)
+			c.Violation("query-mixes-versions:pair"+variant, w, "backend %s: probe answer %v mixes heights", backend, f)
 		}
 	} else if f[1] != 7*h+3 || f[2] != h || f[3] != h || f[4] != 2*h {
-		c.Violation("query-mixes-versions:pair", w, "backend %s: probe answer H=%d F=%d last=%d M[h]=%d M[g]=%d is not one committed version", backend, h, f[1], f[2], f[3], f[4])
+		c.Violation("query-mixes-versions:pair"+variant, w, "backend %s: probe answer H=%d F=%d last=%d M[h]=%d M[g]=%d is not one committed version", backend, h, f[1], f[2], f[3], f[4])
 	}
 	if f[5]+f[6] != tokTotal {
-		c.Violation("query-mixes-versions:balances", w, "backend %s: the two balances read in one query sum to %d, not %d", backend, f[5]+f[6], tokTotal)
+		c.Violation("query-mixes-versions:balances"+variant, w, "backend %s: the two balances read in one query sum to %d, not %d", backend, f[5]+f[6], tokTotal)
+	}
+	// cross-store: the tick tx also moved one coin to zed in the versioned bank store, so
+	// at the height the realm objects carry, zed holds exactly (height - 2) coins
+	if want := max(h-2, 0); f[7] != want {
+		c.Violation("query-mixes-versions:objects-vs-bank"+variant, w, "backend %s: realm objects carry height %d but zed's balance is %d (the tick tx of every block moves one coin; %d expected): object store and bank store read at different heights", backend, h, f[7], want)
 	}
 	if h != 0 && (int64(h) < o.lo || int64(h) > o.hi) {
-		c.Violation("query-sees-wrong-height", w, "backend %s: answer carries height %d but %d was committed before the request and commit of %d had started before the response (uncommitted or stale state)", backend, h, o.lo, o.hi)
+		c.Violation("query-sees-wrong-height"+variant, w, "backend %s: answer carries height %d but %d was committed before the request and commit of %d had started before the response (uncommitted or stale state)", backend, h, o.lo, o.hi)
 	}
 	if h == 0 && o.lo >= 3 {
-		c.Violation("query-sees-wrong-height", w, "backend %s: answer predates the first tick although height %d was committed before the request", backend, o.lo)
+		c.Violation("query-sees-wrong-height"+variant, w, "backend %s: answer predates the first tick although height %d was committed before the request", backend, o.lo)
 	}
 }
 
